@@ -167,6 +167,19 @@ PROPS["C10"] = {
                     "stable membership; LRU exactness (that the victim is the least recently used of the sample) is not part of the property and not claimed"],
 }
 
+PROPS["C13"] = {
+    "lean": ["OlricModel.Props.C13"],
+    "streams": [("routing", (5, 6), (60, 12))],
+    "model": True,
+    "level_text": "Theorems about one routing-table computation of the coordinator, for EVERY previous owners list, member list, key-count report and ring answer: the primary owners list ends with the ring's owner (exactly one primary owner, last), every other listed owner was listed before, is still that live member (same name AND id: departed or re-joined members are dropped) and did not report zero keys, ids stay distinct (C13_primary, C13_primary_all_live); the backup list is (previous backups that are live, hold data and are not new) ++ the ring's replica owners in ring order, i.e. the current backup owners are the last min(R, N) - 1 entries, distinct, live, not the primary (C13_backups, C13_backups_members, C13_backups_valid under the stated ring contract RingOK); a member reporting left-over data is listed afterwards (C13_leftover); a push that reaches every member leaves all with the same table (C13_agreement); with distinct birthdates every member seeing the same member set names the same, oldest, coordinator whatever the listing order (C13_coordinator); the ring's bounded-load assignment never exceeds its bound and has room whenever partitions >= members (C13_load_bound, C13_room); witness that the bound is 0 and the assignment impossible with fewer partitions than members. Code shapes extracted on every run (facts_tie). Tied to the code by the routing stream: joins, graceful leaves (coordinator included), re-joins under the old address, data in between; single computations captured under the routing lock with everything they read and compared with the model; stabilised dumps of every member and a cluster client checked by an independent oracle.",
+    "design_ref": "DESIGN.md §6 C13",
+    "modelled": "internal/cluster/routingtable/{distribute,update,operations,left_over_data}.go and discovery.GetCoordinator (Cluster/Routing.lean); buraksezer/consistent is a parameter with the contract RingOK, its load assignment is modelled separately",
+    "assumptions": ["the consistent-hash ring (third-party) answers within RingOK: checked on every captured computation by the stream, not proved",
+                    "memberlist is abstracted to the member list it reports; 'stabilised' = every live member lists exactly the live members and a push reached all of them",
+                    "abrupt failure detection timing is not claimed (graceful leaves only in this stream; abrupt stops belong to C02)",
+                    "PartitionCount >= member count: otherwise the ring library panics on join (finding F34, stated as a witness; generators keep parts >= members)"],
+}
+
 PROPS["C14"] = {
     "lean": ["OlricModel.Props.C14"],
     "streams": [("pubsub", (8, 120), (120, 400))],
